@@ -93,7 +93,19 @@ def candleOhlcv (inToks res extra : List String) : Option String :=
         let clvOut : Out :=
           if h == l then .num 0 0
           else .quot (2 * cl - l - h) (8 * e * (2 * ratAbs cl + ratAbs l + ratAbs h)) (h - l) 0 false
+        -- C12: on a valid candle CLV lies in [-1,1] and the true range is not negative, strictly
+        let rng : Option String :=
+          if !valid then none else
+          match parseRat (res.getD 3 ""), parseRat (res.getD 5 "") with
+          | some y, some tr =>
+            -- slack of DESIGN §3.2: C·ε·k·(hi−lo) with k = 1
+            let a := c.C * c.eps * 2
+            if y < -1 - a || 1 + a < y then some s!"range: clv {ratStr y} outside [-1,1] on a valid candle"
+            else if tr < 0 then some s!"range: tr {ratStr tr} negative" else none
+          | none, _ => some s!"range: clv non-finite on a valid candle"
+          | _, none => some s!"range: tr non-finite on a valid candle"
         firstSome [
+          rng,
           numOk c (res.getD 0 "") k.tp tpTol,
           numOk c (res.getD 1 "") k.hl2 (8 * e * (ratAbs h + ratAbs l)),
           numOk c (res.getD 2 "") k.ohlc4 (8 * e * (s3 + ratAbs o)),
